@@ -972,7 +972,11 @@ where
 	// disconnect reason is.
 	let _ = close_tx.send(res).await;
 	close_tx.closed().await;
-	from_frontend.close();
+	// Close the front-end channel and let go of everything that keeps front-end futures waiting (the
+	// queued messages and this task's handle on the request manager) *before* closing the transport:
+	// `close()` may take arbitrarily long on a stalled connection and nothing pending should wait for it.
+	drop(from_frontend);
+	drop(manager);
 	let _ = sender.close().await;
 }
 
